@@ -116,19 +116,21 @@ class MultiFunction(Generic[T, P]):
     def _find_and_cache_method(self, key: T) -> Method[T, P] | None:
         """Find and cache the best method for dispatch value `key`."""
         with self._lock:
-            best_key: T | None = None
-            best_method: Method | None = None
-            for method_key, method in self._methods.items():
-                if self._is_a(key, method_key):
-                    if best_key is None or self._precedes(method_key, best_key):
-                        best_key, best_method = method_key, method
-                    if not self._precedes(best_key, method_key):
-                        raise runtime.RuntimeException(
-                            "Cannot resolve a unique method for dispatch value "
-                            f"'{key}'; '{best_key}' and '{method_key}' both match and "
-                            "neither is preferred"
-                        )
+            # The best method is the one matching key which precedes every other
+            # matching key. Every candidate is compared against every other so the
+            # result does not depend on the iteration order of the method table.
+            matches = [e for e in self._methods.items() if self._is_a(key, e[0])]
+            best = [
+                e for e in matches if all(self._precedes(e[0], o) for o, _ in matches)
+            ]
+            if matches and len(best) != 1:
+                raise runtime.RuntimeException(
+                    "Cannot resolve a unique method for dispatch value "
+                    f"'{key}'; {', '.join(repr(k) for k, _ in best or matches)} all "
+                    "match and none is preferred over all of the others"
+                )
 
+            best_method: Method | None = best[0][1] if best else None
             if best_method is None:
                 best_method = self._methods.val_at(self._default)
 
